@@ -1,7 +1,7 @@
 (** C13 — automata conversions and combinators compute the intended regular languages.
     Statements only; proofs live in C13/Proofs*.v. *)
 From Coq Require Import ZArith List Bool.
-From Algo.C13 Require Import Model Spec Lemmas ProofsNFA ProofsDFA ProofsSM ProofsUnion ProofsStar ProofsSubset ProofsSubsetTerm ProofsElim.
+From Algo.C13 Require Import Model Spec Lemmas ProofsNFA ProofsDFA ProofsSM ProofsUnion ProofsStar ProofsSubset ProofsSubsetTerm ProofsElim ProofsMinQuot ProofsMinRound.
 Import ListNotations.
 Open Scope Z_scope.
 
@@ -51,6 +51,19 @@ Theorem C13_eliminate_dead_states : forall (d : dfa), dwf d -> dfa_ok d ->
             (forall s a t, dedge r s a t -> dedge d s a t) /\
             forall w, daccept r w = daccept d w.
 Proof. exact elim_dead_ok. Qed.
+
+(** Minimize accepts w iff the original does.  Full statement: the refinement loop returns within
+    its fuel for every DFA, and the result preserves the language. *)
+Definition C13_minimize_full : Prop := forall (d : dfa), dwf d -> dfa_ok d ->
+  exists m, minimize d = Ok m /\ dwf m /\ dfa_ok m /\ forall w, daccept m w = daccept d w.
+
+(** Proved: language preservation whenever the loop returns (partial correctness); the partition
+    on which the loop stops is a congruence that separates final from non-final states.
+    Missing: that the fuel |Q|+3 always suffices (each round but the first adds a group) — the
+    correspondence check has never observed Hang. *)
+Theorem C13_minimize_partial : forall (d m : dfa), dwf d -> dfa_ok d -> minimize d = Ok m ->
+  dwf m /\ dfa_ok m /\ forall w, daccept m w = daccept d w.
+Proof. exact minimize_accept. Qed.
 
 (** Union (receiver first) accepts exactly the union of the operand languages. *)
 Theorem C13_union : forall (ns : list nfa) (w : list Z), Forall nwf ns -> word_ok w ->
@@ -107,6 +120,7 @@ Print Assumptions C13_clone_dfa.
 Print Assumptions C13_tonfa.
 Print Assumptions C13_todfa.
 Print Assumptions C13_eliminate_dead_states.
+Print Assumptions C13_minimize_partial.
 Print Assumptions C13_union.
 Print Assumptions C13_star.
 Print Assumptions C13_concat_refuted.
